@@ -1,6 +1,6 @@
 (* Property C06: the model of the literal pipeline (part B of Literal.v)
    returns the number the spelling denotes (part A), for every string. *)
-From Coq Require Import ZArith List Bool Ascii String QArith Lia Qfield.
+From Coq Require Import ZArith List Bool Ascii String QArith Qpower Lia Qfield.
 From FpyV Require Import Lang.Literal.
 Import ListNotations.
 Open Scope Z_scope.
@@ -62,12 +62,18 @@ Proof.
   intros NE F. unfold py_int. destruct ds; [contradiction|]. apply fold_opt_horner. exact F.
 Qed.
 
+Lemma Zlen_nonneg s : 0 <= Zlen s.
+Proof. unfold Zlen. lia. Qed.
+
 Lemma horner_shift base acc ds : horner base acc ds = acc * base ^ Zlen ds + horner base 0 ds.
 Proof.
   revert acc. induction ds as [|c t IH]; intros acc.
   - unfold Zlen. simpl. lia.
-  - unfold horner in *. simpl. rewrite IH. rewrite (IH (0 * base + dval base c)).
-    unfold Zlen. simpl length. rewrite Nat2Z.inj_succ. rewrite Z.pow_succ_r by lia. ring.
+  - change (horner base acc (c :: t)) with (horner base (acc * base + dval base c) t).
+    change (horner base 0 (c :: t)) with (horner base (0 * base + dval base c) t).
+    rewrite IH. rewrite (IH (0 * base + dval base c)).
+    replace (Zlen (c :: t)) with (Z.succ (Zlen t)) by (unfold Zlen; cbn [List.length]; lia).
+    rewrite Z.pow_succ_r by apply Zlen_nonneg. ring.
 Qed.
 
 Lemma horner_app base acc a b : horner base acc (a ++ b) = horner base (horner base acc a) b.
@@ -75,9 +81,13 @@ Proof. unfold horner. apply fold_left_app. Qed.
 
 Lemma dval_nonneg base c : 0 <= dval base c.
 Proof.
-  unfold dval, digit_in, digit_of. destruct (_ && _) eqn:A.
-  - destruct (_ <? base); [|lia]. apply andb_prop in A. lia.
-  - destruct (_ && _) eqn:B; [|lia]. destruct (_ <? base); [|lia]. apply andb_prop in B. lia.
+  unfold dval, digit_in, digit_of. set (n := code c).
+  destruct ((48 <=? n) && (n <=? 57)) eqn:A.
+  - apply andb_prop in A. destruct A as [A1 A2]. apply Z.leb_le in A1, A2.
+    destruct (n - 48 <? base); lia.
+  - destruct ((97 <=? n) && (n <=? 102)) eqn:B; [|lia].
+    apply andb_prop in B. destruct B as [B1 B2]. apply Z.leb_le in B1, B2.
+    destruct (n - 87 <? base); lia.
 Qed.
 
 Lemma horner_nonneg base acc ds : 0 <= base -> 0 <= acc -> 0 <= horner base acc ds.
@@ -86,8 +96,275 @@ Proof.
   apply IH. pose proof (dval_nonneg base c). nia.
 Qed.
 
-Lemma Zlen_nonneg s : 0 <= Zlen s.
-Proof. unfold Zlen. lia. Qed.
-
 Lemma Zlen_app a b : Zlen (a ++ b) = Zlen a + Zlen b.
 Proof. unfold Zlen. rewrite app_length. lia. Qed.
+
+(* ---------------------------------------------------------------- rational arithmetic *)
+Lemma inject_pow b n : 0 <= n -> (inject_Z (b ^ n) == qpow b n)%Q.
+Proof. intros. unfold qpow. apply Zpower_Qpower. exact H. Qed.
+
+Lemma qpow_neg b n : 0 <= n -> (qpow b (- n) == / inject_Z (b ^ n))%Q.
+Proof. intros. unfold qpow. rewrite Qpower_opp. rewrite <- Zpower_Qpower by exact H. reflexivity. Qed.
+
+Lemma Qmake_div n d : 0 < d -> (Qmake n (Z.to_pos d) == inject_Z n / inject_Z d)%Q.
+Proof.
+  intros Hd. rewrite (Qmake_Qdiv n (Z.to_pos d)). rewrite Z2Pos.id by exact Hd. reflexivity.
+Qed.
+
+Lemma inject_nonzero d : d <> 0 -> ~ (inject_Z d == 0)%Q.
+Proof. intros Hd E. unfold Qeq in E. simpl in E. lia. Qed.
+
+(* the code's combination of the parts is the Horner value *)
+Lemma combine_eq (I F base k eb e : Z) : 0 < base -> 0 < eb -> 0 <= k ->
+  ((inject_Z I + inject_Z F * qpow base (- k)) * qpow eb e == mkq (I * base ^ k + F) base k eb e)%Q.
+Proof.
+  intros Hb He Hk. unfold mkq, ppow.
+  assert (P : 0 < base ^ k) by (apply Z.pow_pos_nonneg; lia).
+  rewrite qpow_neg by exact Hk.
+  destruct (Z.leb_spec 0 e) as [E|E].
+  - assert (R : 0 < eb ^ e) by (apply Z.pow_pos_nonneg; lia).
+    rewrite Qmake_div by exact P. rewrite <- inject_pow by exact E.
+    rewrite !inject_Z_mult, inject_Z_plus, inject_Z_mult.
+    field. apply inject_nonzero. lia.
+  - assert (R : 0 < eb ^ (- e)) by (apply Z.pow_pos_nonneg; lia).
+    replace e with (- (- e)) at 1 by lia. rewrite qpow_neg by lia.
+    rewrite Qmake_div by nia. rewrite !inject_Z_mult, inject_Z_plus, inject_Z_mult.
+    field. split; apply inject_nonzero; lia.
+Qed.
+
+(* ---------------------------------------------------------------- characters *)
+Lemma digit_code base c : is_digit base c = true -> 48 <= code c <= 57 \/ 97 <= code c <= 102.
+Proof.
+  unfold is_digit, digit_in, digit_of. set (n := code c).
+  destruct ((48 <=? n) && (n <=? 57)) eqn:A.
+  - intros _. apply andb_prop in A. destruct A as [A1 A2]. apply Z.leb_le in A1, A2. lia.
+  - destruct ((97 <=? n) && (n <=? 102)) eqn:B; [|discriminate].
+    intros _. apply andb_prop in B. destruct B as [B1 B2]. apply Z.leb_le in B1, B2. lia.
+Qed.
+
+Lemma digit_not_char base a c : is_digit base c = true -> code a < 48 \/ (57 < code a < 97) \/ 102 < code a ->
+  is_char a c = false.
+Proof. intros D H. apply digit_code in D. unfold is_char. apply Z.eqb_neq. lia. Qed.
+
+Lemma digit_not_dot base c : is_digit base c = true -> is_char "." c = false.
+Proof. intros D. apply (digit_not_char base); [exact D|]. left. vm_compute. reflexivity. Qed.
+
+Lemma split_dot_app base ip fp : Forall (fun c => is_digit base c = true) ip ->
+  split_dot (ip ++ "."%char :: fp) = Some (ip, fp).
+Proof.
+  intros F. unfold split_dot.
+  assert (S : span (fun c => negb (is_char "." c)) (ip ++ "."%char :: fp) = (ip, "."%char :: fp)).
+  { induction F as [|c t Hc Ht IH]; simpl.
+    - reflexivity.
+    - rewrite (digit_not_dot base c Hc). simpl. rewrite IH. reflexivity. }
+  rewrite S. reflexivity.
+Qed.
+
+Lemma split_dot_none base ip : Forall (fun c => is_digit base c = true) ip -> split_dot ip = None.
+Proof.
+  intros F. unfold split_dot.
+  assert (S : span (fun c => negb (is_char "." c)) ip = (ip, [])).
+  { induction F as [|c t Hc Ht IH]; simpl; [reflexivity|].
+    rewrite (digit_not_dot base c Hc). simpl. rewrite IH. reflexivity. }
+  rewrite S. reflexivity.
+Qed.
+
+Lemma zero_digit base : 2 <= base -> py_int base ["0"%char] = Some 0.
+Proof.
+  intros H. unfold py_int. simpl. unfold digit_in. change (digit_of "0") with (Some 0).
+  cbv iota beta. assert (E : (0 <? base) = true) by (apply Z.ltb_lt; lia). rewrite E. reflexivity.
+Qed.
+
+Definition qsign (sg : option ascii) : Q :=
+  match sg with Some c => if is_char "-" c then inject_Z (-1) else 1%Q | None => 1%Q end.
+
+(* the exponent group *)
+Lemma exponent_spec t :
+  let '(es, t1) := match t with
+                   | d :: t' => if is_char "-" d || is_char "+" d then ([d], t') else ([], t)
+                   | [] => ([], [])
+                   end in
+  let '(eneg, u1) := eat_sign t in
+  u1 = t1 /\
+  forall ed, ed <> [] -> Forall (fun c => is_digit 10 c = true) ed ->
+    py_int_signed (es ++ ed) = Some (if eneg then - horner 10 0 ed else horner 10 0 ed).
+Proof.
+  destruct t as [|d t']; simpl.
+  - split; [reflexivity|]. intros ed NE F. simpl.
+    destruct ed as [|c r]; [contradiction|]. unfold py_int_signed.
+    inversion F as [|? ? Hc Hr]; subst.
+    rewrite (digit_not_char 10 "-" c Hc) by (left; vm_compute; reflexivity).
+    rewrite (digit_not_char 10 "+" c Hc) by (left; vm_compute; reflexivity).
+    apply py_int_horner; [discriminate|exact F].
+  - destruct (is_char "-" d) eqn:M; simpl.
+    + split; [reflexivity|]. intros ed NE F. unfold py_int_signed. simpl. rewrite M.
+      rewrite py_int_horner by assumption. reflexivity.
+    + destruct (is_char "+" d) eqn:P; simpl.
+      * split; [reflexivity|]. intros ed NE F. unfold py_int_signed. simpl. rewrite M, P.
+        apply py_int_horner; assumption.
+      * split; [reflexivity|]. intros ed NE F. simpl.
+        destruct ed as [|c r]; [contradiction|]. unfold py_int_signed.
+        inversion F as [|? ? Hc Hr]; subst.
+        rewrite (digit_not_char 10 "-" c Hc) by (left; vm_compute; reflexivity).
+        rewrite (digit_not_char 10 "+" c Hc) by (left; vm_compute; reflexivity).
+        apply py_int_horner; [discriminate|exact F].
+Qed.
+
+(* ---------------------------------------------------------------- the exponent tail *)
+(* the regex tail and the denotation tail accept the same strings, and the
+   exponent the code hands to int() is the one the denotation reads *)
+Lemma tail_core base eb echar mant m n2 s5 :
+  match re_tail echar mant s5, sci_tail base eb (is_char echar) false m n2 s5 with
+  | Some (mant', ex), Some q =>
+      mant' = mant /\
+      exists E, q = mkq m base n2 eb E /\
+        (ex = None /\ E = 0 \/ exists es, ex = Some es /\ py_int_signed es = Some E)
+  | None, None => True
+  | _, _ => False
+  end.
+Proof.
+  unfold re_tail, sci_tail. destruct s5 as [|c t].
+  { split; [reflexivity|]. exists 0. split; [reflexivity|]. left. auto. }
+  destruct (is_char echar c); [|exact I].
+  pose proof (exponent_spec t) as X.
+  destruct (match t with
+            | [] => ([], [])
+            | d :: t' => if is_char "-" d || is_char "+" d then ([d], t') else ([], t)
+            end) as [es t1].
+  destruct (eat_sign t) as [eneg u1]. destruct X as [-> X].
+  rewrite eat_span. pose proof (span_spec (is_digit 10) t1) as S.
+  destruct (span (is_digit 10) t1) as [ed t2]. cbn [fst snd]. destruct S as [_ [Fed _]].
+  destruct ed as [|c0 ed'].
+  { unfold Zlen. simpl. destruct t2; exact I. }
+  assert (NZ : (0 + Zlen (c0 :: ed') =? 0) = false).
+  { apply Z.eqb_neq. unfold Zlen. cbn [List.length]. lia. }
+  rewrite NZ. destruct t2; [|exact I].
+  split; [reflexivity|]. eexists. split; [reflexivity|]. right. eexists. split; [reflexivity|].
+  apply X; [discriminate|exact Fed].
+Qed.
+
+Lemma sci_to_fraction_value sg i f ex base b I F k E :
+  py_int base i = Some I ->
+  (f = None /\ F = 0 /\ k = 0 \/ exists fs, f = Some fs /\ py_int base fs = Some F /\ k = Zlen fs) ->
+  (ex = None /\ E = 0 \/ exists es, ex = Some es /\ py_int_signed es = Some E) ->
+  sci_to_fraction sg i f ex base b =
+  Some (qsign sg * (inject_Z I + inject_Z F * qpow base (- k)) * qpow b E)%Q.
+Proof.
+  intros Hi Hf He. unfold sci_to_fraction. rewrite Hi.
+  destruct Hf as [[-> [-> ->]]|[fs [-> [Hf ->]]]]; [|rewrite Hf];
+  (destruct He as [[-> ->]|[es [-> He]]]; [|rewrite He]); reflexivity.
+Qed.
+
+Lemma is_char_eq a c : is_char a c = true -> c = a.
+Proof.
+  unfold is_char, code. intros H. apply Z.eqb_eq in H. apply N2Z.inj in H.
+  rewrite <- (ascii_N_embedding c), <- (ascii_N_embedding a). f_equal. symmetry. exact H.
+Qed.
+
+Lemma Zlen_cons_pos (c : ascii) l : 0 < Zlen (c :: l).
+Proof. unfold Zlen. cbn [List.length]. lia. Qed.
+
+(* ---------------------------------------------------------------- mantissa + exponent: code = denotation *)
+Lemma body_core base eb echar relaxed zero_int sg s :
+  2 <= base -> 0 < eb ->
+  match re_body (is_digit base) echar relaxed s, sci_body base eb (is_char echar) false (negb relaxed) s with
+  | Some (mant, ex), Some mag =>
+      match mant_to_fraction zero_int relaxed sg mant ex base eb with
+      | Some q => (q == qsign sg * mag)%Q
+      | None => zero_int = false /\ fst (span (is_digit base) s) = []
+      end
+  | None, None => True
+  | _, _ => False
+  end.
+Proof.
+  intros Hb He. unfold re_body, sci_body. rewrite eat_span.
+  pose proof (span_spec (is_digit base) s) as S.
+  destruct (span (is_digit base) s) as [ip s3]. cbn [fst snd]. destruct S as [_ [Fip _]].
+  set (I := horner base 0 ip).
+  (* the value when there is no fraction part *)
+  assert (NoFrac : forall s5, ip <> [] ->
+    match re_tail echar ip s5, sci_tail base eb (is_char echar) false I 0 s5 with
+    | Some (mant, ex), Some mag =>
+        match mant_to_fraction zero_int relaxed sg mant ex base eb with
+        | Some q => (q == qsign sg * mag)%Q
+        | None => zero_int = false /\ ip = []
+        end
+    | None, None => True
+    | _, _ => False
+    end).
+  { intros s5 NE. pose proof (tail_core base eb echar ip I 0 s5) as T.
+    destruct (re_tail echar ip s5) as [[mant ex]|], (sci_tail base eb (is_char echar) false I 0 s5) as [mag|]; try exact T.
+    destruct T as [-> [E [-> HE]]]. unfold mant_to_fraction. rewrite (split_dot_none base ip Fip).
+    rewrite (sci_to_fraction_value sg ip None ex base eb I 0 0 E (py_int_horner base ip NE Fip) (or_introl (conj eq_refl (conj eq_refl eq_refl))) HE).
+    rewrite <- Qmult_assoc. apply Qmult_comp; [reflexivity|].
+    rewrite (combine_eq I 0 base 0 eb E) by lia. rewrite Z.pow_0_r, Z.mul_1_r, Z.add_0_r. reflexivity. }
+  destruct s3 as [|c t].
+  - (* end of the mantissa at the end of the string *)
+    destruct ip as [|c0 ip'].
+    + reflexivity.
+    + assert (N1 : (0 + Zlen (c0 :: ip') + 0 =? 0) = false) by (apply Z.eqb_neq; pose proof (Zlen_cons_pos c0 ip'); lia).
+      rewrite N1. rewrite andb_false_r. simpl andb. cbv iota.
+      specialize (NoFrac [] ltac:(discriminate)).
+      destruct (re_tail echar (c0 :: ip') []) as [[mant ex]|], (sci_tail base eb (is_char echar) false I 0 []) as [mag|]; try exact NoFrac.
+  - destruct (is_char "." c) eqn:Dot.
+    + (* a point *)
+      apply is_char_eq in Dot. subst c. rewrite eat_span.
+      pose proof (span_spec (is_digit base) t) as S2.
+      destruct (span (is_digit base) t) as [fp s4]. cbn [fst snd]. destruct S2 as [_ [Ffp _]].
+      assert (Dfp : fp = [] \/ fp <> []) by (destruct fp; [left; reflexivity|right; discriminate]).
+      destruct Dfp as [->|NEfp].
+      * (* no digit after the point *)
+        destruct ip as [|c0 ip'].
+        { reflexivity. }
+        assert (N1 : (0 + Zlen (c0 :: ip') + (0 + Zlen []) =? 0) = false) by (apply Z.eqb_neq; pose proof (Zlen_cons_pos c0 ip'); unfold Zlen at 2; simpl; lia).
+        rewrite N1. change (0 + Zlen [] =? 0) with true. rewrite !andb_true_r.
+        destruct relaxed; simpl negb; cbv iota; [|exact Logic.I].
+        change (horner base I []) with I. change (0 + Zlen []) with 0.
+        pose proof (tail_core base eb echar ((c0 :: ip') ++ ["."%char]) I 0 s4) as T.
+        destruct (re_tail echar ((c0 :: ip') ++ ["."%char]) s4) as [[mant ex]|], (sci_tail base eb (is_char echar) false I 0 s4) as [mag|]; try exact T.
+        destruct T as [-> [E [-> HE]]]. unfold mant_to_fraction. rewrite (split_dot_app base (c0 :: ip') [] Fip). cbv iota beta.
+        rewrite (sci_to_fraction_value sg (c0 :: ip') None ex base eb I 0 0 E (py_int_horner base (c0 :: ip') ltac:(discriminate) Fip) (or_introl (conj eq_refl (conj eq_refl eq_refl))) HE).
+        rewrite <- Qmult_assoc. apply Qmult_comp; [reflexivity|].
+        rewrite (combine_eq I 0 base 0 eb E) by lia. rewrite Z.pow_0_r, Z.mul_1_r, Z.add_0_r. reflexivity.
+      * (* digits after the point *)
+        set (k := Zlen fp).
+        assert (Kp : 0 < k) by (unfold k; destruct fp; [contradiction|apply Zlen_cons_pos]).
+        assert (N1 : (0 + Zlen ip + (0 + k) =? 0) = false) by (apply Z.eqb_neq; pose proof (Zlen_nonneg ip); lia).
+        assert (N2 : (0 + k =? 0) = false) by (apply Z.eqb_neq; lia).
+        assert (MR : match ip, fp with
+                     | [], [] => None
+                     | _ :: _, [] => if relaxed then Some (ip ++ ["."%char], s4) else None
+                     | _, _ :: _ => Some (ip ++ "."%char :: fp, s4)
+                     end = Some (ip ++ "."%char :: fp, s4)) by (destruct ip, fp; try reflexivity; contradiction).
+        rewrite MR, N1, N2. rewrite andb_false_r. cbv iota.
+        set (F := horner base 0 fp).
+        pose proof (tail_core base eb echar (ip ++ "."%char :: fp) (horner base I fp) (0 + k) s4) as T.
+        destruct (re_tail echar (ip ++ "."%char :: fp) s4) as [[mant ex]|], (sci_tail base eb (is_char echar) false (horner base I fp) (0 + k) s4) as [mag|]; try exact T.
+        destruct T as [-> [E [-> HE]]]. unfold mant_to_fraction. rewrite (split_dot_app base ip fp Fip).
+        assert (FE : match fp with [] => if relaxed then None else Some fp | _ :: _ => Some fp end = Some fp)
+          by (destruct fp; [contradiction|reflexivity]).
+        rewrite FE.
+        assert (Hf : exists fs, Some fp = Some fs /\ py_int base fs = Some F /\ k = Zlen fs).
+        { exists fp. split; [reflexivity|]. split; [apply py_int_horner; [exact NEfp|exact Ffp]|reflexivity]. }
+        assert (Val : forall i Iv, py_int base i = Some Iv -> Iv = I ->
+                  match sci_to_fraction sg i (Some fp) ex base eb with
+                  | Some q => (q == qsign sg * mkq (horner base I fp) base (0 + k) eb E)%Q
+                  | None => zero_int = false /\ ip = []
+                  end).
+        { intros i Iv Hi ->. rewrite (sci_to_fraction_value sg i (Some fp) ex base eb I F k E Hi (or_intror Hf) HE).
+          rewrite <- Qmult_assoc. apply Qmult_comp; [reflexivity|].
+          rewrite (combine_eq I F base k eb E) by lia. rewrite (horner_shift base I fp). fold k F.
+          replace (0 + k) with k by lia. reflexivity. }
+        destruct ip as [|c0 ip'].
+        { destruct zero_int.
+          - apply (Val ["0"%char] 0); [apply zero_digit; exact Hb|reflexivity].
+          - unfold sci_to_fraction. simpl py_int. cbv iota. auto. }
+        apply (Val (c0 :: ip') I); [apply py_int_horner; [discriminate|exact Fip]|reflexivity].
+    + (* no point *)
+      destruct ip as [|c0 ip'].
+      * reflexivity.
+      * assert (N1 : (0 + Zlen (c0 :: ip') + 0 =? 0) = false) by (apply Z.eqb_neq; pose proof (Zlen_cons_pos c0 ip'); lia).
+        rewrite N1. rewrite andb_false_r. simpl andb. cbv iota.
+        specialize (NoFrac (c :: t) ltac:(discriminate)).
+        destruct (re_tail echar (c0 :: ip') (c :: t)) as [[mant ex]|], (sci_tail base eb (is_char echar) false I 0 (c :: t)) as [mag|]; try exact NoFrac.
+  Qed.
